@@ -214,4 +214,40 @@ theorem ex_cons_whole : AbortedConsistent exOpts exAborted exLog := by
 
 theorem ex_complete : ∀ b ∈ exLog.dropLast, b.present = b.records.length := by decide
 
+/-! ## a second log: a v1 gzip wrapper stamped LogAppendTime (the case repaired in /repo 581b089), then a v0 message -/
+
+/-- wrapper at 41 (absolute offset of its last inner message), attributes gzip | LogAppendTime, broker time 5000 -/
+def exWrap : Msg := ⟨true, 41, 1, 9, 5000, none, some [31, 139]⟩
+/-- its inner messages: relative offsets 0 and 2 (1 was compacted away), producer timestamps 77 and 78 -/
+def exWrapInner : Inner := ⟨true, [⟨true, 0, 1, 0, 77, exKey, exVal 0⟩, ⟨true, 2, 1, 0, 78, exKey, exVal 2⟩], none, false⟩
+def exLog2 : List LBatch := [
+  ⟨39, 41, -1, -1, -1, 9, [⟨39, some 5000, exKey, exVal 0, []⟩, ⟨41, some 5000, exKey, exVal 2, []⟩], 2⟩,
+  ⟨42, 42, -1, -1, -1, 128, [⟨42, none, exKey, exVal 3, []⟩], 1⟩]
+def exItems2 : List Item := [.msg exWrap exWrapInner, .msg ⟨false, 42, 0, 0, 0, exKey, exVal 3⟩ ⟨true, [], none, false⟩]
+/-- read_uncommitted fetch at 40, inside the wrapper -/
+def exOpts2 : Opts := ⟨false, false, 40⟩
+
+theorem ex2_rep : RepList exItems2 exLog2 := by
+  refine .cons ?_ (.cons ?_ .nil)
+  · show Rep (.msg exWrap exWrapInner) _
+    simp only [Rep]
+    rw [if_neg (by decide)]
+    refine ⟨by decide, rfl, rfl, rfl, ?_, by decide, by decide, by decide, rfl, by decide, rfl, rfl, rfl, by decide, rfl⟩
+    intro i hi
+    simp only [exWrapInner, List.mem_cons, List.mem_nil_iff, or_false] at hi
+    rcases hi with rfl | rfl <;> exact ⟨by unfold validMsg; decide, by decide⟩
+  · show Rep (.msg _ _) _
+    simp only [Rep]
+    rw [if_pos (by decide)]
+    exact ⟨by unfold validMsg; decide, rfl, rfl, rfl, rfl, rfl, rfl, by decide, rfl⟩
+
+theorem ex2_wf : WfLog exLog2 := by
+  refine ⟨?_, by decide⟩
+  intro b hb
+  simp only [exLog2, List.mem_cons, List.mem_nil_iff, or_false] at hb
+  rcases hb with h | h <;> subst h <;> exact ⟨by decide, by decide, by decide, by decide⟩
+
+theorem ex2_cons : AbortedConsistent exOpts2 [] exLog2 :=
+  ⟨fun _ _ _ => by simp [effA], fun _ _ _ _ a ha => by simp [effA] at ha⟩
+
 end Proof.C06
